@@ -509,8 +509,8 @@ func judge(a assertionT, tok string, t0, now time.Time, cfg vcfg) (want, string)
 		switch {
 		case e > band:
 			return mustReject, "issued-in-the-future"
-		case e >= -band:
-			soft = "inside-clock-band"
+		case e > 0:
+			soft = "inside-clock-band" // iat <= now is not "in the future" under any reading
 		}
 		if cfg.maxAge > 0 {
 			switch {
